@@ -96,6 +96,14 @@ def records(ctx):
                 recs.append({"op": "convert", "what": "options_of_an_equal_description",
                              "same": bool((back2.options_1, back2.options_2) == (opts2, ()) and
                                           (config.Service.from_offer_entry(s.create_offer_entry(ttl)).options_1 == opts1))})
+                # the same options, divided differently between the two runs: every division comes back as it went in, whatever was
+                # converted before (all divisions of a three-option sequence, one after the other, in one process)
+                seq3 = opts1 + opts2
+                for k1 in range(4):
+                    sx = config.Service(*conc(a, c), options_1=seq3[:k1], options_2=seq3[k1:], eventgroups=frozenset())
+                    bx = config.Service.from_offer_entry(sx.create_offer_entry(ttl))
+                    recs.append({"op": "convert", "what": "division_of_the_options_between_the_runs",
+                                 "same": bool((bx.options_1, bx.options_2) == (seq3[:k1], seq3[k1:]))})
                 f = s.create_find_entry(ttl)
                 same = (f.sd_type, f.service_id, f.instance_id, f.major_version, f.minver_or_counter, f.ttl, f.options_1, f.options_2) == \
                        (T.FindService, s.service_id, s.instance_id, s.major_version, s.minor_version, ttl, (), ())
